@@ -16,10 +16,12 @@ func init() {
 		Rule: "one execution = one packet of the reduced C01 space x one prior buffer content; inside it every destination length 0..MarshalSize()+3 is tried for Packet.MarshalTo and Header.MarshalTo (each length is one case); non-trivial = packet has extension padding or RTP padding",
 		Assumptions: []string{
 			"reduced packet space keeps every size-affecting dimension: CSRC {0,1,15}, extension blocks with 0-3 bytes of 32-bit rounding, payload {0,1,5}, RTP padding {none,1,2,5,255}; thorough uses the full C01 quick space",
+			"in place: the destination previously contained the packet itself - the packet is parsed from a buffer (its extension values and payload are views into it), one fixed field is changed (none / sequence number / marker / SSRC / timestamp), and it is serialised back into that same buffer, of exactly MarshalSize() bytes or with 3 more",
 			"prior destination contents: all 00, all FF, all A5, i -> i; destinations with capacity == length and windows into a larger array (length < capacity: nothing behind the window may change)",
 		},
 		Scenarios: []mc.Scenario{
 			{Name: "every-destination-length", Tiers: "qt", ShardDepth: 4, Run: c04Run},
+			{Name: "destination-is-the-parsed-buffer", Tiers: "qt", ShardDepth: 4, Run: c04InPlace},
 		},
 	})
 }
@@ -120,4 +122,65 @@ func c04Run(c *mc.Ctx) {
 	}
 	c.Outcome(c01Class(w))
 	_ = rtp.Header{}
+}
+
+// c04InPlace: parse, touch a fixed field, serialise back into the buffer it was parsed from.
+func c04InPlace(c *mc.Ctx) {
+	level := spaceReduced
+	if c.Thorough() {
+		level = spaceQuick
+	}
+	touch := c.Pick(5)
+	extra := 3 * c.Pick(2)
+	p, w := genPacket(c, level, fixedPresets[c.Pick(2)])
+	img, err := p.Marshal()
+	if err != nil {
+		c.Failf("marshal-failed", "%s: Marshal: %v", describeWire(w), err)
+	}
+	raw := append(clone(img), 0xE1, 0xE2, 0xE3)[:len(img)+extra]
+	var q rtp.Packet
+	if err := q.Unmarshal(raw[:len(img)]); err != nil {
+		c.Failf("marshal-failed", "%s: Unmarshal of the packet's own serialisation: %v", describeWire(w), err)
+	}
+	switch touch {
+	case 1:
+		q.SequenceNumber++
+	case 2:
+		q.Marker = !q.Marker
+	case 3:
+		q.SSRC ^= 0xFFFFFFFF
+	case 4:
+		q.Timestamp += 960
+	}
+	// the expected bytes are taken from a copy that shares no memory with raw
+	want, err := q.Clone().Marshal()
+	if err != nil || len(want) != len(img) {
+		c.Failf("marshal-failed", "%s: Marshal of the parsed packet: %d bytes, %v", describeWire(w), len(want), err)
+	}
+	hwant, _ := q.Header.Clone().Marshal()
+	if c.Verbose() {
+		c.Notef("packet: %s; field touched %d; destination = source buffer + %d bytes", describeWire(w), touch, extra)
+	}
+	if c.Bool() {
+		n, err := q.Header.MarshalTo(raw)
+		if err != nil || n != len(hwant) || !bytes.Equal(raw[:n], hwant) {
+			c.Failf("marshalto-differs-from-marshal", "%s: Header.MarshalTo into the buffer the packet was parsed from (field touched %d) wrote %s (n=%d, %v), Marshal() gives %s", describeWire(w), touch, hx(raw[:minI(n, len(raw))]), n, err, hx(hwant))
+		}
+		if !bytes.Equal(raw[n:len(img)], img[n:]) || !bytes.Equal(raw[len(img):], []byte{0xE1, 0xE2, 0xE3}[:extra]) {
+			c.Failf("wrote-beyond", "%s: Header.MarshalTo in place changed bytes beyond the header", describeWire(w))
+		}
+	} else {
+		n, err := q.MarshalTo(raw)
+		if err != nil || n != len(want) || !bytes.Equal(raw[:n], want) {
+			c.Failf("marshalto-differs-from-marshal", "%s: MarshalTo into the buffer the packet was parsed from (field touched %d) wrote %s (n=%d, %v), Marshal() gives %s", describeWire(w), touch, hx(raw[:minI(n, len(raw))]), n, err, hx(want))
+		}
+		if !bytes.Equal(raw[n:], []byte{0xE1, 0xE2, 0xE3}[:extra]) {
+			c.Failf("wrote-beyond", "%s: MarshalTo in place changed bytes beyond MarshalSize", describeWire(w))
+		}
+	}
+	c.Ops(4)
+	if w.PadSize > 0 || (w.X && len(w.Body())%4 != 0) {
+		c.NonTrivial()
+	}
+	c.Outcome(c01Class(w))
 }
